@@ -26,9 +26,11 @@ func runC07(c *Ctx) {
 	c.Rule("R07d", "escape/scan agreement: a dialect whose literal-quoting helper produces backslash escapes (strconv.Quote) scans statements with BackslashEscapes: true", 1)
 	c.Rule("R07e", "quoting helpers neutralise their own delimiter: the string written between quotes is first passed through an escaping call (ReplaceAll of the quote / strconv.Quote)", 4)
 	c.Rule("R07g", "comment agreement: the goose reader inserts its statement delimiter after a line only if the line does not start with the line-comment opener the scanner itself uses (the constant passed to Scanner.comment with a newline terminator)", 1)
+	c.Rule("R07h", "line-oriented readers: (1) every sqltool reader that rebuilds the statement text from scanned lines appends the line exactly as scanned (no transformed copy reaches the append); (2) a reader that ends a statement at a line ending in the delimiter is paired with a formatter that prints .Cmd either between the tool's begin/end pragmas or under a condition on .Cmd", 3)
 	c.Rule("R07f", "import keeps the sequence: migrateImportRun allocates one change per scanned statement, stores statement i at index i, writes the statement's comments before its text and resets the buffer before the next statement", 4)
 
 	checkTemplatesDelim(c)
+	checkLineReaders(c)
 	checkComments(c)
 	checkPragmaRegexps(c)
 	checkEscapeScan(c)
@@ -39,8 +41,32 @@ func runC07(c *Ctx) {
 
 // ---- R07a
 
-func templateFuncsMap() map[string]any {
-	funcs := map[string]any{"now": "", "rev": "", "inc": "", "upper": "", "directives": "", "indent_ln": "", "sem": "", "indent": ""}
+// templateFuncsMap returns the function names the template parser must know: the builtins plus every
+// string key of a template.FuncMap composite literal in the two packages that define file templates.
+func templateFuncsMap(c *Ctx) map[string]any {
+	funcs := map[string]any{}
+	for _, pp := range []string{pSqltool, pMigrate} {
+		p := c.Pkg(pp)
+		if p == nil {
+			continue
+		}
+		for _, file := range p.Syntax {
+			ast.Inspect(file, func(m ast.Node) bool {
+				cl, ok := m.(*ast.CompositeLit)
+				if !ok || !typeIs(p.TypesInfo.TypeOf(cl), "text/template", "FuncMap") {
+					return true
+				}
+				for _, el := range cl.Elts {
+					if kv, ok := el.(*ast.KeyValueExpr); ok {
+						if k, ok := stringConst(p.TypesInfo, kv.Key); ok {
+							funcs[k] = ""
+						}
+					}
+				}
+				return true
+			})
+		}
+	}
 	for _, b := range strings.Fields("and call html index slice js len not or print printf println urlquery eq ge gt le lt ne") {
 		funcs[b] = ""
 	}
@@ -125,16 +151,31 @@ func checkTemplatesDelim(c *Ctx) {
 		if !strings.Contains(t.text, ".Cmd") {
 			continue
 		}
-		trees, err := parse.Parse("t", t.text, "{{", "}}", templateFuncsMap())
+		trees, err := parse.Parse("t", t.text, "{{", "}}", templateFuncsMap(c))
 		if err != nil {
 			c.Check("R07a", t.name+"|parses", t.pos, false, "template does not parse: %v", err)
 			continue
 		}
 		okAll, n, why := true, 0, ""
+		// dotIsCmd: inside a {{ define }} block invoked as {{ template "x" .Cmd }} the statement is `.`
+		dotIsCmd := false
+		isCmd := func(a parse.Node) bool {
+			return strings.HasSuffix(a.String(), ".Cmd") || dotIsCmd && a.String() == "."
+		}
 		var walk func(n parse.Node, next parse.Node)
 		checkAction := func(a *parse.ActionNode, next parse.Node) {
 			s := a.String()
-			if !strings.Contains(s, ".Cmd") {
+			mentions := strings.Contains(s, ".Cmd")
+			if dotIsCmd {
+				for _, cmd := range a.Pipe.Cmds {
+					for _, arg := range cmd.Args {
+						if arg.String() == "." {
+							mentions = true
+						}
+					}
+				}
+			}
+			if !mentions {
 				return
 			}
 			n++
@@ -145,9 +186,9 @@ func checkTemplatesDelim(c *Ctx) {
 					if id, ok := cmd.Args[0].(*parse.IdentifierNode); ok && id.Ident == "printf" {
 						if f, ok := cmd.Args[1].(*parse.StringNode); ok {
 							switch {
-							case f.Text == "%s"+delim+"\n" && strings.HasSuffix(cmd.Args[2].String(), ".Cmd"):
+							case f.Text == "%s"+delim+"\n" && isCmd(cmd.Args[2]):
 								return
-							case f.Text == "%s%s\n" && len(cmd.Args) == 4 && strings.HasSuffix(cmd.Args[2].String(), ".Cmd"):
+							case f.Text == "%s%s\n" && len(cmd.Args) == 4 && isCmd(cmd.Args[2]):
 								d := cmd.Args[3].String()
 								if strings.Contains(d, "$.Delimiter") && strings.Contains(d, `"`+delim+`"`) {
 									return
@@ -156,7 +197,7 @@ func checkTemplatesDelim(c *Ctx) {
 						}
 					}
 				}
-				if len(cmd.Args) == 1 && strings.HasSuffix(cmd.Args[0].String(), ".Cmd") {
+				if len(cmd.Args) == 1 && isCmd(cmd.Args[0]) {
 					if tx, ok := next.(*parse.TextNode); ok && strings.HasPrefix(string(tx.Text), delim+"\n") {
 						return
 					}
@@ -183,8 +224,20 @@ func checkTemplatesDelim(c *Ctx) {
 				walk(x.List, nil)
 				walk(x.ElseList, nil)
 			case *parse.IfNode:
+				// a condition may inspect the statement ({{ if multiline .Cmd }}): it prints nothing
 				walk(x.List, nil)
 				walk(x.ElseList, nil)
+			case *parse.TemplateNode:
+				if x.Pipe != nil && len(x.Pipe.Cmds) == 1 && len(x.Pipe.Cmds[0].Args) == 1 && isCmd(x.Pipe.Cmds[0].Args[0]) {
+					sub := trees[x.Name]
+					if sub == nil || dotIsCmd {
+						okAll, why = false, x.String()
+						return
+					}
+					dotIsCmd = true
+					walk(sub.Root, nil)
+					dotIsCmd = false
+				}
 			case *parse.WithNode:
 				walk(x.List, nil)
 				walk(x.ElseList, nil)
@@ -680,4 +733,247 @@ func checkGooseCommentGuard(c *Ctx) {
 		return true
 	})
 	c.Check("R07g", "GooseFile.StmtDecls|delimiter not inserted after comment lines", fi.Decl.Pos(), found && ok && openers["--"], "the goose reader guards the delimiter insertion with HasPrefix(line, %q), which is not the scanner's line-comment opener: a comment line ending in ';' gets a delimiter and becomes an (empty) statement", lit)
+}
+
+// ---- R07h
+
+// checkLineReaders: see R07h.
+func checkLineReaders(c *Ctx) {
+	nReaders := 0
+	lineSplit := map[string]bool{} // reader type -> ends statements at a line suffix
+	c.AllFuncs(false, func(fi *FuncInfo) {
+		if fi.Pkg.PkgPath != pSqltool || fi.Decl.Name.Name != "StmtDecls" {
+			return
+		}
+		info := fi.Info()
+		// variables defined from (*bufio.Scanner).Text()
+		lineDefs := map[types.Object]ast.Node{}
+		ast.Inspect(fi.Decl.Body, func(m ast.Node) bool {
+			as, ok := m.(*ast.AssignStmt)
+			if !ok || len(as.Lhs) != 1 || len(as.Rhs) != 1 {
+				return true
+			}
+			call, ok := as.Rhs[0].(*ast.CallExpr)
+			if !ok || !funcIs(calleeOf(info, call), "bufio", "Scanner", "Text") {
+				return true
+			}
+			if id, ok := as.Lhs[0].(*ast.Ident); ok {
+				lineDefs[info.ObjectOf(id)] = as
+			}
+			return true
+		})
+		if len(lineDefs) == 0 {
+			return
+		}
+		nReaders++
+		c.funcs[fi.Name] = true
+		f := newFlow(info, fi.Decl.Body)
+		isScanDef := func(n ast.Node) bool {
+			for _, d := range lineDefs {
+				if n == d {
+					return true
+				}
+			}
+			return false
+		}
+		// (1) appends of a scanned line: the argument is the variable itself and no other definition of it reaches the append
+		nApp := 0
+		for _, call := range callsIn(fi.Decl.Body, true) {
+			if builtinName(info, call) != "append" || len(call.Args) != 2 {
+				continue
+			}
+			if _, isConst := stringConst(info, call.Args[1]); isConst {
+				continue
+			}
+			arg := ast.Unparen(call.Args[1])
+			mentionsLine := false
+			ast.Inspect(arg, func(k ast.Node) bool {
+				if id, ok := k.(*ast.Ident); ok && lineDefs[info.ObjectOf(id)] != nil {
+					mentionsLine = true
+				}
+				return true
+			})
+			if !mentionsLine {
+				continue
+			}
+			nApp++
+			id, isIdent := arg.(*ast.Ident)
+			ok := isIdent
+			why := "the appended value " + types.ExprString(arg) + " is a transformed copy of the scanned line"
+			if isIdent {
+				obj := info.ObjectOf(id)
+				// other stores to the variable from which the append is reachable without a fresh scan
+				ast.Inspect(fi.Decl.Body, func(k ast.Node) bool {
+					as, isAs := k.(*ast.AssignStmt)
+					if !isAs || isScanDef(as) {
+						return true
+					}
+					for _, l := range as.Lhs {
+						if lid, isID := l.(*ast.Ident); isID && info.ObjectOf(lid) == obj {
+							starts := f.find(func(n ast.Node) bool { return n == as })
+							for i := range starts {
+								starts[i] = after(starts[i])
+							}
+							target := func(n ast.Node) bool {
+								hit := false
+								ast.Inspect(n, func(x ast.Node) bool {
+									if x == call {
+										hit = true
+									}
+									return !hit
+								})
+								return hit
+							}
+							if _, reached := f.reachEx(starts, isScanDef, target, nil); reached {
+								ok = false
+								why = "the line is overwritten at " + c.pos(as.Pos()) + " before it is appended"
+							}
+						}
+					}
+					return true
+				})
+			}
+			c.Check("R07h", fi.Name+"|scanned line appended unchanged", call.Pos(), ok, "%s: %s: the statement text read back differs from the text written (trailing blanks inside a multi-line literal are lost)", fi.Name, why)
+		}
+		if nApp == 0 {
+			c.Unresolved("R07h", fi.Name+": the append of the scanned line")
+		}
+		// premise of (2): an `if` that appends the delimiter under HasSuffix(line, …)
+		ast.Inspect(fi.Decl.Body, func(m ast.Node) bool {
+			ifs, isIf := m.(*ast.IfStmt)
+			if !isIf {
+				return true
+			}
+			for _, fct := range impliedFacts(ifs.Cond, true) {
+				if call, isCall := fct.expr.(*ast.CallExpr); isCall && fct.val {
+					if fn := calleeOf(info, call); fn != nil && fn.Pkg() != nil && fn.Pkg().Path() == "strings" && fn.Name() == "HasSuffix" {
+						lineSplit[recvName(fi.Decl)] = true
+					}
+				}
+			}
+			return true
+		})
+	})
+	if nReaders < 2 {
+		c.Unresolved("R07h", "line-rebuilding readers in sql/sqltool (expected GooseFile and DBMateFile)")
+	}
+	// (2) pairing: reader type XFile <-> formatter XFormatter
+	sp := c.Pkg(pSqltool)
+	for rt := range lineSplit {
+		fname := strings.TrimSuffix(rt, "File") + "Formatter"
+		obj := sp.Types.Scope().Lookup(fname)
+		if obj == nil {
+			c.Unresolved("R07h", "formatter "+fname+" paired with reader "+rt)
+			continue
+		}
+		var texts []string
+		var tpos token.Pos
+		for _, file := range sp.Syntax {
+			ast.Inspect(file, func(m ast.Node) bool {
+				vs, ok := m.(*ast.ValueSpec)
+				if !ok || len(vs.Names) != 1 || sp.TypesInfo.ObjectOf(vs.Names[0]) != obj || len(vs.Values) != 1 {
+					return true
+				}
+				if call, ok := vs.Values[0].(*ast.CallExpr); ok {
+					for _, a := range call.Args {
+						if t, ok := stringConst(sp.TypesInfo, a); ok && strings.Contains(t, ".Cmd") {
+							texts = append(texts, t)
+							tpos = a.Pos()
+						}
+					}
+				}
+				return false
+			})
+		}
+		if len(texts) == 0 {
+			c.Unresolved("R07h", "template of "+fname)
+			continue
+		}
+		for _, text := range texts {
+			trees, err := parse.Parse("t", text, "{{", "}}", templateFuncsMap(c))
+			if err != nil {
+				c.Check("R07h", fname+"|parses", tpos, false, "template does not parse: %v", err)
+				continue
+			}
+			bad := ""
+			n := 0
+			// guarded: some enclosing if/else tests the statement value; bracketed: text before ends with a Begin pragma line
+			var walk func(nd parse.Node, prev parse.Node, guarded bool, dotIsCmd bool)
+			mentionsCmd := func(s string, nd parse.Node, dotIsCmd bool) bool {
+				if strings.Contains(s, ".Cmd") {
+					return true
+				}
+				if !dotIsCmd {
+					return false
+				}
+				hit := false
+				var visit func(n parse.Node)
+				visit = func(n parse.Node) {
+					switch x := n.(type) {
+					case *parse.PipeNode:
+						for _, cm := range x.Cmds {
+							visit(cm)
+						}
+					case *parse.CommandNode:
+						for _, a := range x.Args {
+							visit(a)
+						}
+					case *parse.DotNode:
+						hit = true
+					}
+				}
+				visit(nd)
+				return hit
+			}
+			walk = func(nd parse.Node, prev parse.Node, guarded, dotIsCmd bool) {
+				switch x := nd.(type) {
+				case *parse.ListNode:
+					if x == nil {
+						return
+					}
+					for i, k := range x.Nodes {
+						var pv parse.Node
+						if i > 0 {
+							pv = x.Nodes[i-1]
+						}
+						walk(k, pv, guarded, dotIsCmd)
+					}
+				case *parse.ActionNode:
+					if !mentionsCmd(x.String(), x.Pipe, dotIsCmd) {
+						return
+					}
+					n++
+					bracketed := false
+					if tx, ok := prev.(*parse.TextNode); ok {
+						lines := strings.Split(strings.TrimRight(string(tx.Text), "\n"), "\n")
+						last := lines[len(lines)-1]
+						bracketed = strings.HasPrefix(last, "-- +") && strings.HasSuffix(last, "Begin")
+					}
+					if !guarded && !bracketed {
+						bad = x.String()
+					}
+				case *parse.RangeNode:
+					walk(x.List, nil, guarded, dotIsCmd)
+					walk(x.ElseList, nil, guarded, dotIsCmd)
+				case *parse.WithNode:
+					walk(x.List, nil, guarded, dotIsCmd)
+					walk(x.ElseList, nil, guarded, dotIsCmd)
+				case *parse.IfNode:
+					g := guarded || mentionsCmd(x.Pipe.String(), x.Pipe, dotIsCmd)
+					walk(x.List, nil, g, dotIsCmd)
+					walk(x.ElseList, nil, g, dotIsCmd)
+				case *parse.TemplateNode:
+					if x.Pipe != nil && mentionsCmd(x.Pipe.String(), x.Pipe, dotIsCmd) {
+						if sub := trees[x.Name]; sub != nil && !dotIsCmd {
+							walk(sub.Root, nil, guarded, true)
+						} else {
+							bad = x.String()
+						}
+					}
+				}
+			}
+			walk(trees["t"].Root, nil, false, false)
+			c.Check("R07h", fname+" ⇄ "+rt+".StmtDecls|multi-line statements are delimited explicitly", tpos, bad == "" && n > 0, "%s ends a statement at every line that ends with the delimiter, but %s prints %s neither between begin/end pragmas nor under a condition on the statement: a statement with a line break after ';' inside a literal is cut in two when read back", rt, fname, bad)
+		}
+	}
 }
